@@ -24,7 +24,7 @@ macro_rules! opaque {
         impl Clone for $n { #[verifier::external_body] fn clone(&self) -> (r: Self) ensures r == *self { unimplemented!() } }
     )* } }
 }
-opaque!(DeliveryTag, Payload, Attach, LinkFlow, Disposition, TransactionId, AmqpError, SessionStopReason, Source, Symbol, SenderRelayFlowState, ReceiverRelayFlowState, ChanSendError);
+opaque!(DeliveryTag, Payload, Attach, LinkFlow, TransactionId, AmqpError, SessionStopReason, Source, Symbol, SenderRelayFlowState, ReceiverRelayFlowState, ChanSendError);
 
 #[verifier::external_body]
 pub struct DeliveryState { _p: u8 }
@@ -71,6 +71,14 @@ pub fn opt_get_mut<'a, K, V>(g: &'a mut Option<OrderedMap<K, V>>, k: &K) -> (r: 
         },
 { unimplemented!() }
 
+#[verifier::external_body]
+pub fn opt_insert<K, V>(g: &mut Option<OrderedMap<K, V>>, k: K, v: V) -> (r: Option<V>)
+    ensures
+        omap(*final(g)) == omap(*old(g)).insert(k, v),
+        *final(g) is Some,
+        match r { Some(o) => omap(*old(g)).contains_key(k) && o == omap(*old(g))[k], None => !omap(*old(g)).contains_key(k) },
+{ unimplemented!() }
+
 pub struct ChanSender<T> { pub sent: Ghost<Seq<T>>, pub failures: Ghost<nat> }
 impl<T> ChanSender<T> {
     #[verifier::external_body]
@@ -110,6 +118,8 @@ impl OneshotSender {
 //@@ type file=fe2o3-amqp-types/src/definitions/snd_settle_mode.rs kind=enum name=SenderSettleMode clone
 //@@ end
 //@@ type file=fe2o3-amqp-types/src/performatives/transfer.rs kind=struct name=Transfer clone
+//@@ end
+//@@ type file=fe2o3-amqp-types/src/performatives/disposition.rs kind=struct name=Disposition
 //@@ end
 //@@ type file=fe2o3-amqp-types/src/performatives/detach.rs kind=struct name=Detach
 //@@ subst `Option<Error>` => `Option<AmqpError>` rule=optional
@@ -198,6 +208,46 @@ impl LinkRelay<OutputHandle> {
             && !(transfer.settled is Some && transfer.settled->Some_0) && old(self).rsm() == ReceiverSettleMode::Second && !old(self)->Receiver_more,   // [C02.relay.register-second] only the first frame of an unsettled delivery on a settle-second link is registered for the sender's settling disposition, under its own id and tag
         *old(self) is Receiver ==> final(self)->Receiver_unsettled == old(self)->Receiver_unsettled && final(self)->Receiver_output_handle == old(self)->Receiver_output_handle
             && final(self)->Receiver_receiver_settle_mode == old(self)->Receiver_receiver_settle_mode,
+//@@ end
+}
+
+// ---------------------------------------------------------------------------------------------
+// ReceiverLink::dispose (C02: receiver side of settlement)
+pub struct Sealed {}
+//@@ type file=fe2o3-amqp/src/link/delivery.rs kind=struct name=DeliveryInfo
+//@@ end
+pub enum DispositionError { IllegalState, SessionStopped(SessionStopReason) }
+// ReceiverLink<T>: the fields dispose touches (R11)
+pub struct ReceiverLinkD {
+    pub rcv_settle_mode: ReceiverSettleMode,
+    pub unsettled: Option<OrderedMap<DeliveryTag, Option<DeliveryState>>>,
+    pub session_stop_reason: OnceCell<SessionStopReason>,
+}
+impl ReceiverLinkD {
+//@@ fn file=fe2o3-amqp/src/link/receiver_link.rs impl=`~impl<Tar>endpoint::ReceiverLinkforReceiverLink<Tar>` name=dispose
+//@@ selfmut
+//@@ ret Result<(), DispositionError>
+//@@ param writer : &mut ChanSender<LinkFrame>
+//@@ subst `let mut lock = self.unsettled.write();` => `let mut lock = &mut self.unsettled;` rule=R4
+//@@ subst `lock.as_mut() .and_then(|map| map.swap_remove(&delivery_info.delivery_tag))` => `opt_swap_remove(&mut *lock, &delivery_info.delivery_tag)` rule=R15
+//@@ subst `lock.get_or_insert(OrderedMap::new()) .insert(delivery_info.delivery_tag.clone(), Some(state.clone()))` => `opt_insert(&mut *lock, delivery_info.delivery_tag.clone(), Some(state.clone()))` rule=R15
+//@@ subst `|_v0|` => `|_v0: ChanSendError|` rule=R5
+//@@ spec
+    ensures
+        ({
+            let mode = if delivery_info.rcv_settle_mode is Some { delivery_info.rcv_settle_mode->Some_0 } else { old(self).rcv_settle_mode };
+            let will_settle = if settled is Some { settled->Some_0 } else { mode is First };                              // [C02.receiver.settle-mode] settle first => settled at once; settle second => NOT settled by the receiver
+            let m0 = omap(old(self).unsettled);
+            let m1 = omap(final(self).unsettled);
+            let known = m0.contains_key(delivery_info.delivery_tag);
+            &&& will_settle ==> m1 == m0.remove(delivery_info.delivery_tag)                                               // [C02.receiver.settled-forgets] a settled delivery is forgotten: exactly its own entry
+            &&& !will_settle ==> m1 == m0.insert(delivery_info.delivery_tag, Some(state))                                 // [C02.receiver.second-keeps-unsettled] in settle-second mode the delivery STAYS in the unsettled map (with the outcome) until the sender's settling disposition arrives
+            &&& (known && r is Ok) ==> final(writer).sent@ == old(writer).sent@.push(LinkFrame::Disposition(Disposition {
+                    role: Role::Receiver, first: delivery_info.delivery_id, last: None, settled: will_settle, state: Some(state), batchable }))   // [C02.receiver.disposition] one disposition for this delivery's own id, carrying exactly the outcome the application applied
+            &&& !known ==> final(writer).sent@ == old(writer).sent@ && r is Ok                                            // [C02.receiver.unknown-delivery] an already settled / unknown delivery produces no disposition
+            &&& r is Err ==> final(writer).sent@ == old(writer).sent@
+        }),
+        final(self).rcv_settle_mode == old(self).rcv_settle_mode,
 //@@ end
 }
 
